@@ -582,7 +582,21 @@ func runScript(seed uint64, idx int, mix string, nev int, kinds map[string]int) 
 	if cfg.V6 {
 		v6 = 1
 	}
-	line := fmt.Sprintf("CTrace [%d;%d;%d;%d;%d;%d;(%d)] %s %s [%s]", c.ISS, c.IRS, cfg.PeerMSS, cfg.MTU, v6, cfg.PeerWnd, cfg.PeerWS, tcpx.ZL(s.peer), tcpx.CoqState(init), strings.Join(s.steps, ";"))
+	// what the SYN-ACK really carried (an option is only answered when the stack's SYN offered it)
+	synTS, synSACK, synWS, _ := tcpx.OptInfo(c.SynOpts)
+	effWS := -1
+	if cfg.PeerWS >= 0 && synWS {
+		effWS = cfg.PeerWS
+	}
+	rb, sb := cfg.RcvBuf, cfg.SndBuf
+	if rb == 0 {
+		rb = 1 << 20
+	}
+	if sb == 0 {
+		sb = 1 << 20
+	}
+	line := fmt.Sprintf("CTrace [%d;%d;%d;%d;%d;%d;(%d);%d;%d;%d;%d;%d] %s %s [%s]", c.ISS, c.IRS, cfg.PeerMSS, cfg.MTU, v6, cfg.PeerWnd, effWS,
+		b2i(cfg.PeerTS && synTS), b2i(cfg.PeerSACK && synSACK), b2i(synSACK), rb, sb, tcpx.ZL(s.peer), tcpx.CoqState(init), strings.Join(s.steps, ";"))
 	c.EP.Close()
 	return line, nil
 }
@@ -608,4 +622,11 @@ func main() {
 		fmt.Fprintln(w, line)
 	}
 	fmt.Fprintf(w, "# event kinds: %v\n", kinds)
+}
+
+func b2i(b bool) int {
+	if b {
+		return 1
+	}
+	return 0
 }
